@@ -152,7 +152,7 @@ pub fn check_range(t: &ExecutionTrace, start: usize, end: usize) -> Result<(), S
     Ok(())
 }
 
-fn hash64(s: &str) -> u64 {
+pub fn hash64(s: &str) -> u64 {
     crate::rngx::str_hash(s)
 }
 
